@@ -57,7 +57,23 @@ type syncRec struct {
 	events []syncEvent
 }
 
+// evCount counts every hook call of the process: waitQuiet uses it to let the goroutines of
+// the previous client finish before a new record starts (their late events would otherwise
+// land in the next record and the monitor would rightly reject that).
+var evCount atomic.Int64
+
+func waitQuiet() {
+	for i := 0; i < 100; i++ { // at most a second
+		c0 := evCount.Load()
+		time.Sleep(10 * time.Millisecond)
+		if evCount.Load() == c0 {
+			return
+		}
+	}
+}
+
 func (r *syncRec) hook(site string, args ...int) {
+	evCount.Add(1)
 	g := gid()
 	r.mu.Lock()
 	r.events = append(r.events, syncEvent{g, site, append([]int(nil), args...)})
@@ -108,7 +124,7 @@ func spinBreak(site string, g int) {
 	}
 }
 
-func defaultHook(site string, args ...int) { spinBreak(site, 0) }
+func defaultHook(site string, args ...int) { evCount.Add(1); spinBreak(site, 0) }
 
 func init() { mqtt.VerifEvent = defaultHook }
 
@@ -235,6 +251,7 @@ type apiObs struct {
 func runSyncCase(r *rng, stats map[string]int) (string, map[string]any, bool) {
 	restore := mqtt.VerifSetReadBufSize(256)
 	defer restore()
+	waitQuiet()
 	rec := &syncRec{}
 	mqtt.VerifEvent = rec.hook
 	defer func() { mqtt.VerifEvent = defaultHook }()
@@ -495,6 +512,7 @@ func runSyncCase(r *rng, stats map[string]int) (string, map[string]any, bool) {
 // (which empties the slot) and reconnects; Ping B installs its slot and sends PINGREQ; A
 // resumes and takes B's slot; the PINGRESP finds the slot empty and B waits for ever.
 func runF7(stats map[string]int) (string, map[string]any) {
+	waitQuiet()
 	rec := &syncRec{}
 	var aGid int
 	parkA := make(chan struct{})
@@ -627,6 +645,7 @@ func runF7(stats map[string]int) (string, map[string]any) {
 // runF6 schedules Close into a handshake that waits for its CONNACK (the F6 schedule), in
 // real time outside a bubble: on a tree with the defect ReadSlices and Close never return.
 func runF6(stats map[string]int) (string, map[string]any) {
+	waitQuiet()
 	rec := &syncRec{}
 	mqtt.VerifEvent = rec.hook
 	defer func() { mqtt.VerifEvent = defaultHook }()
@@ -728,6 +747,7 @@ func runF20(stats map[string]int) (string, map[string]any) {
 	var best string
 	var bestDesc map[string]any
 	for try := 0; try < 6; try++ {
+		waitQuiet()
 		rec := &syncRec{}
 		var kGid, rGid int
 		parkK, kParked := make(chan struct{}), make(chan struct{})
@@ -1001,6 +1021,7 @@ func waitCh(ch <-chan struct{}, limit time.Duration) bool {
 // error. It has to close the connection (which releases the writer), return, and redial on
 // the next call. Real time, outside a bubble; gates instead of sleeps.
 func runStalledWrite(stats map[string]int) (string, map[string]any) {
+	waitQuiet()
 	rec := &syncRec{}
 	mqtt.VerifEvent = rec.hook
 	defer func() { mqtt.VerifEvent = defaultHook }()
@@ -1055,11 +1076,14 @@ func runStalledWrite(stats map[string]int) (string, map[string]any) {
 	rres := make(chan error, 4)
 	next := make(chan struct{}, 4)
 	rg := make(chan int, 1)
+	readerExited := make(chan struct{})
 	go func() {
+		defer close(readerExited)
 		rg <- gid()
 		for range next {
 			rres <- safelyNow(read)
 		}
+		drainClosed(client) // the last events of this client belong to this scenario's record
 	}()
 	g := <-rg
 	waitR := func() bool {
@@ -1096,6 +1120,7 @@ func runStalledWrite(stats map[string]int) (string, map[string]any) {
 		waitR()
 	}
 	close(next)
+	waitCh(readerExited, limit)
 	return renderSched(rec, s, "stalled write of another goroutine when the read routine meets a read error")
 }
 
@@ -1105,6 +1130,7 @@ func runStalledWrite(stats map[string]int) (string, map[string]any) {
 // dying connection. All three have to return (ErrBreak): no response can come any more and the
 // redial fails.
 func runLateRequest(stats map[string]int) (string, map[string]any) {
+	waitQuiet()
 	rec := &syncRec{}
 	mqtt.VerifEvent = rec.hook
 	defer func() { mqtt.VerifEvent = defaultHook }()
@@ -1170,11 +1196,14 @@ func runLateRequest(stats map[string]int) (string, map[string]any) {
 	rres := make(chan error, 4)
 	next := make(chan struct{}, 4)
 	rg := make(chan int, 1)
+	readerExited := make(chan struct{})
 	go func() {
+		defer close(readerExited)
 		rg <- gid()
 		for range next {
 			rres <- safelyNow(func() error { _, _, err := client.ReadSlices(); return err })
 		}
+		drainClosed(client) // the last events of this client belong to this scenario's record
 	}()
 	g := <-rg
 	waitR := func() bool {
@@ -1230,6 +1259,7 @@ func runLateRequest(stats map[string]int) (string, map[string]any) {
 	}
 	client.Close()
 	close(next)
+	waitCh(readerExited, limit)
 	return renderSched(rec, s, "requests written to the dying connection while the read routine goes offline")
 }
 
@@ -1238,6 +1268,7 @@ func runLateRequest(stats map[string]int) (string, map[string]any) {
 // return all the same (it takes connection control, which connect handed back before the
 // resends, and closes the connection under the stalled write), and so has ReadSlices.
 func runCloseDuringResend(stats map[string]int, disconnect bool) (string, map[string]any) {
+	waitQuiet()
 	rec := &syncRec{}
 	mqtt.VerifEvent = rec.hook
 	defer func() { mqtt.VerifEvent = defaultHook }()
@@ -1286,11 +1317,14 @@ func runCloseDuringResend(stats map[string]int, disconnect bool) (string, map[st
 	rres := make(chan error, 4)
 	next := make(chan struct{}, 4)
 	rg := make(chan int, 1)
+	readerExited := make(chan struct{})
 	go func() {
+		defer close(readerExited)
 		rg <- gid()
 		for range next {
 			rres <- safelyNow(func() error { _, _, err := client.ReadSlices(); return err })
 		}
+		drainClosed(client) // the last events of this client belong to this scenario's record
 	}()
 	g := <-rg
 	after := false
@@ -1327,6 +1361,7 @@ func runCloseDuringResend(stats map[string]int, disconnect bool) (string, map[st
 		client.Close()
 	}
 	close(next)
+	waitCh(readerExited, limit)
 	label := "Close while the resend of a pending publish is stalled in conn.Write"
 	if disconnect {
 		label = "Disconnect (closed quit) while the resend of a pending publish is stalled in conn.Write"
@@ -1338,6 +1373,7 @@ func runCloseDuringResend(stats map[string]int, disconnect bool) (string, map[st
 // ping slot taken by another Ping which is on its way to the very same answer. Ping A is parked
 // at the entry of its write (slot installed); Ping B runs meanwhile.
 func runPingAfterClose(stats map[string]int) (string, map[string]any) {
+	waitQuiet()
 	rec := &syncRec{}
 	var aGid int
 	parkA, aParked := make(chan struct{}), make(chan struct{})
@@ -1399,6 +1435,7 @@ func runPingAfterClose(stats map[string]int) (string, map[string]any) {
 // returns, the publish is enqueued (ErrDown on its exchange), connect resends it and the client is
 // Online again.
 func runSlowSaveDuringConnect(stats map[string]int) (string, map[string]any) {
+	waitQuiet()
 	rec := &syncRec{}
 	mqtt.VerifEvent = rec.hook
 	defer func() { mqtt.VerifEvent = defaultHook }()
@@ -1464,11 +1501,14 @@ func runSlowSaveDuringConnect(stats map[string]int) (string, map[string]any) {
 	rres := make(chan error, 4)
 	next := make(chan struct{}, 4)
 	rg := make(chan int, 1)
+	readerExited := make(chan struct{})
 	go func() {
+		defer close(readerExited)
 		rg <- gid()
 		for range next {
 			rres <- safelyNow(func() error { _, _, err := client.ReadSlices(); return err })
 		}
+		drainClosed(client) // the last events of this client belong to this scenario's record
 	}()
 	g := <-rg
 	waitR := func() bool {
@@ -1515,5 +1555,17 @@ func runSlowSaveDuringConnect(stats map[string]int) (string, map[string]any) {
 	go func() { client.Close(); close(done) }()
 	waitCh(done, limit)
 	close(next)
+	waitCh(readerExited, limit)
 	return renderSched(rec, s, "a persisted publish is inside Persistence.Save while the read routine redials")
+}
+
+// drainClosed lets the read routine of a closed client see the end (ErrClosed), so that
+// termCallbacks and its goroutines have run before the next scenario starts recording.
+func drainClosed(client *mqtt.Client) {
+	for i := 0; i < 3; i++ {
+		err := safelyNow(func() error { _, _, err := client.ReadSlices(); return err })
+		if errors.Is(err, mqtt.ErrClosed) || err == errPanic {
+			return
+		}
+	}
 }
